@@ -3,6 +3,7 @@ import Nsq.Model.InFlight
 import Nsq.Model.Restart
 import Nsq.Proofs.Life
 import Nsq.Proofs.InFlight
+import Nsq.Proofs.InFlightEmpty
 import Nsq.Proofs.LifeLock
 import Nsq.Tie.Life
 /-
@@ -117,7 +118,7 @@ example : Nsq.Proofs.InFlight.NoDupPush (InFlight.initSt []) zombieSchedule := b
 /-- everything the channel is responsible for: queued, in flight, deferred, or in the hands of an operation in progress -/
 def heldBy (s : InFlight.St) : List Nat := s.map ++ s.queued ++ s.dmap ++ InFlight.contObjs s.conts
 
-def noPut (l : List InFlight.Step) : Bool := l.all (fun a => match a with | .put _ => false | _ => true)
+def noPut (l : List InFlight.Step) : Bool := Nsq.Proofs.InFlightEmpty.noPut l
 
 /-- objects held when `Empty` begins (after `pre`) that are in flight again after `Empty` (all three critical
 sections) and the continuation `post`; `none` = the schedule is not executable -/
@@ -179,6 +180,109 @@ theorem empty_sections_clear (s s1 s2 s3 : InFlight.St)
     · cases h2
 
 example : survivors [.put 1, .startMapPush 1 1 10, .startPQPush 1] [.scanPeek 50] = some [] := by decide
+
+/-! #### fixes/F27: REQ / TOUCH hold the channel's read lock (`St.ansLock`, tie `answers_channel_lock_shape`) -/
+
+/-- the tree as committed (F7, F16, F48) and the tree with the proposal fixes/F27 on top -/
+def committedTree : InFlight.St := { InFlight.initSt [] with scanAtomic := true, pushAtomic := true }
+def f27Tree : InFlight.St := { InFlight.initSt [] with scanAtomic := true, pushAtomic := true, ansLock := true }
+
+/-- `survivors` from an arbitrary initial parameter choice -/
+def survivorsOn (s0 : InFlight.St) (pre post : List InFlight.Step) : Option (List Nat) :=
+  match InFlight.run true s0 pre with
+  | InFlight.Res.ok s1 =>
+    match InFlight.run true s1 ([.emptyResetInflight, .emptyResetDeferred, .emptyRest] ++ post) with
+    | InFlight.Res.ok s2 => some ((heldBy s1).filter (fun o => decide (o ∈ s2.map)))
+    | _ => none
+  | _ => none
+
+/-- the state in which `Empty` begins has no timeout scan between its heap+map pop and its `put` -/
+def noScanHeldAfter (s0 : InFlight.St) (pre : List InFlight.Step) : Bool :=
+  match InFlight.run true s0 pre with
+  | InFlight.Res.ok s1 => Nsq.Proofs.InFlightEmpty.noScanHeld s1.conts
+  | _ => true
+
+/-- TOUCH variant of `emptySurvivorSchedule` (committed tree): the TOUCH re-registers the message after the Empty -/
+def emptyTouchSurvivorSchedule : List InFlight.Step :=
+  [.touchPop 1 1, .emptyResetInflight, .emptyResetDeferred, .emptyRest, .touchRemove 1, .touchMapPush 1 30, .touchPQPush 1]
+
+/-- scan variant: the timeout scan holds the message (out of heap and map, F16) while Empty runs, then requeues it -/
+def emptyScanSurvivorSchedule : List InFlight.Step :=
+  [.scanPeek 50, .emptyResetInflight, .emptyResetDeferred, .emptyRest, .scanPop 1, .startMapPush 2 1 20, .startPQPush 1]
+
+/-- on the committed tree (F48 shape) all three variants leave message 1 in flight after the Empty (replays
+`empty_races_{req,touch,scan}_survives`) -/
+theorem empty_survivor_variants :
+    survivorsOn committedTree [.put 1, .startMapPush 1 1 10, .startPQPush 1, .reqPop 1 1 0]
+      [.reqRemove 1, .reqPut 1, .startMapPush 2 1 20, .startPQPush 1] = some [1] ∧
+    survivorsOn committedTree [.put 1, .startMapPush 1 1 10, .startPQPush 1, .touchPop 1 1]
+      [.touchRemove 1, .touchMapPush 1 30, .touchPQPush 1] = some [1] ∧
+    survivorsOn committedTree [.put 1, .startMapPush 1 1 10, .startPQPush 1, .scanPeek 50]
+      [.scanPop 1, .startMapPush 2 1 20, .startPQPush 1] = some [1] := by decide
+
+/-- with F27 the REQ and TOUCH witnesses are no schedules any more: `Empty` cannot begin while the answer holds the read
+lock (the answer finishes first, then Empty discards what it re-inserted), and an answer cannot begin while Empty runs -/
+theorem f27_witnesses_impossible :
+    survivorsOn f27Tree [.put 1, .startMapPush 1 1 10, .startPQPush 1, .reqPop 1 1 0]
+      [.reqRemove 1, .reqPut 1, .startMapPush 2 1 20, .startPQPush 1] = none ∧
+    survivorsOn f27Tree [.put 1, .startMapPush 1 1 10, .startPQPush 1, .touchPop 1 1]
+      [.touchRemove 1, .touchMapPush 1 30, .touchPQPush 1] = none ∧
+    -- the same operations in the order the lock forces: nothing survives
+    survivorsOn f27Tree [.put 1, .startMapPush 1 1 10, .startPQPush 1, .reqPop 1 1 0, .reqRemove 1, .reqPut 1]
+      [.startMapPush 2 1 20] = none ∧
+    survivorsOn f27Tree [.put 1, .startMapPush 1 1 10, .startPQPush 1, .reqPop 1 1 0, .reqRemove 1, .reqPut 1] [] = some [] ∧
+    survivorsOn f27Tree [.put 1, .startMapPush 1 1 10, .startPQPush 1, .touchPop 1 1, .touchRemove 1, .touchMapPush 1 30,
+      .touchPQPush 1] [.scanPeek 100] = some [] ∧
+    -- an answer arriving while Empty runs waits (disabled) until `emptyRest` has run
+    (match InFlight.run true f27Tree [.put 1, .startMapPush 1 1 10, .startPQPush 1, .emptyResetInflight, .reqPop 1 1 0] with
+     | InFlight.Res.disabled => true | _ => false) = true := by decide
+
+/-- **`empty_discards_held_fixed`** — tree with fixes/F27, EVERY schedule `pre` before and `post` after the Empty (no new
+publish in `post`), provided no timeout scan holds a message when Empty begins: nothing the channel held when `Empty` began
+— indeed nothing at all — is in flight after it.  (Hypothesis forced: `empty_discards_held_scan_false`.) -/
+theorem empty_discards_held_fixed (pre post : List InFlight.Step) (hp : noPut post = true)
+    (hs : noScanHeldAfter f27Tree pre = true) :
+    survivorsOn f27Tree pre post = none ∨ survivorsOn f27Tree pre post = some [] := by
+  unfold survivorsOn
+  unfold noScanHeldAfter at hs
+  cases h1 : InFlight.run true f27Tree pre with
+  | panic => exact Or.inl rfl
+  | disabled => exact Or.inl rfl
+  | ok s1 =>
+    rw [h1] at hs
+    simp only []
+    cases h2 : InFlight.run true s1 ([.emptyResetInflight, .emptyResetDeferred, .emptyRest] ++ post) with
+    | panic => exact Or.inl rfl
+    | disabled => exact Or.inl rfl
+    | ok s2 =>
+      right
+      have hpar := Nsq.Proofs.InFlightEmpty.run_params true pre f27Tree s1 h1
+      have hm := Nsq.Proofs.InFlightEmpty.empty_then_nothing_in_flight true s1 s2 (by rw [hpar.1]; rfl) (by rw [hpar.2.2]; rfl)
+        hs post hp h2
+      simp [hm]
+
+/-- the full claim for the F27 tree (without the scan hypothesis) is false: the timeout scan's window is not covered by
+fixes/F27 (it holds `exitMutex.RLock` only).  Replayed on the real code: `empty_races_scan_survives`; open finding
+`empty-races-timeout-scan-message-survives`. -/
+def EmptyDiscardsHeldF27Full : Prop :=
+  ∀ (pre post : List InFlight.Step), noPut post = true → survivorsOn f27Tree pre post = none ∨ survivorsOn f27Tree pre post = some []
+
+theorem empty_discards_held_scan_false : ¬ EmptyDiscardsHeldF27Full := by
+  intro h
+  have := h [.put 1, .startMapPush 1 1 10, .startPQPush 1, .scanPeek 50] [.scanPop 1, .startMapPush 2 1 20, .startPQPush 1]
+    (by decide)
+  revert this
+  decide
+
+/-- non-vacuity of `empty_discards_held_fixed`: a history with a deferred REQ, a TOUCH, a FIN and a delivery in progress,
+then Empty, then everything that was parked runs to its end -/
+example : noScanHeldAfter f27Tree [.put 1, .put 2, .put 3, .startMapPush 1 1 10, .startPQPush 1, .startMapPush 1 2 20,
+      .reqPop 1 1 5, .reqRemove 1, .reqPut 1, .deferPQPush 1 99, .touchPop 1 2, .touchRemove 2, .touchMapPush 2 30, .touchPQPush 2,
+      .finPop 1 2, .startMapPush 2 3 40] = true ∧
+    survivorsOn f27Tree [.put 1, .put 2, .put 3, .startMapPush 1 1 10, .startPQPush 1, .startMapPush 1 2 20,
+      .reqPop 1 1 5, .reqRemove 1, .reqPut 1, .deferPQPush 1 99, .touchPop 1 2, .touchRemove 2, .touchMapPush 2 30, .touchPQPush 2,
+      .finPop 1 2, .startMapPush 2 3 40]
+      [.finRemove 2, .startPQPush 2, .startPQPush 3, .dscanPeek 100, .scanPeek 100] = some [] := by decide
 
 /-! ### shape of the timeout scan (`St.scanAtomic`, tie `scan_shape_known`) -/
 
